@@ -291,9 +291,9 @@ def worker(_=None):
         outputter_crosscheck(rep, nmfu, common.seed())
         prove(rep, nmfu, Program(nmfu, common.repo_source()))
     except (Unsupported, NeedFork) as e:
-        rep.undecided_ob("C11/pyvc/CodegenCtx.generate_header/engine", f"outside the modelled Python subset: {type(e).__name__}: {e}")
+        rep.unavailable("C11/pyvc/CodegenCtx.generate_header/engine", f"outside the modelled Python subset: {type(e).__name__}: {e}")
     return {"obligations": rep.obligations, "discharged": rep.discharged, "by_backend": rep.by_backend, "findings": [(f.obligation, f.signature, f.what, f.replay, f.replayed) for f in rep.findings],
-            "undecided": rep.undecided, "functions": rep.functions, "trusted": rep.trusted, "coverage": rep.coverage, "bounded": rep.bounded, "samples": rep.samples}
+            "undecided": rep.undecided, "unavail": rep.unavail, "functions": rep.functions, "trusted": rep.trusted, "coverage": rep.coverage, "bounded": rep.bounded, "samples": rep.samples}
 
 
 def merge(rep, res):
@@ -306,6 +306,7 @@ def merge(rep, res):
         f.counted = True
         rep.findings.append(f)
     rep.undecided += [tuple(u) for u in res["undecided"]]
+    rep.unavail += [tuple(u) for u in res.get("unavail", [])]
     rep.fn(*res["functions"])
     rep.trust(*res["trusted"])
     rep.coverage.update(res["coverage"])
